@@ -227,6 +227,7 @@ class Interp:
         self.wrap_uses = 0
         self.mark_wraps = False
         self.atan2_uses = 0
+        self.wraps = []          # (marker name, inner + offset) per unwrap, in mark mode
 
     # ------------------------------------------------------------------------------------ helpers
     def where(self, node):
@@ -244,13 +245,18 @@ class Interp:
         if c is not None:
             s = (c > 0) - (c < 0)
             return s in true_signs
+        hinted = None
         if self.hook is not None:
             h = self.hook(d)
-            if h is not None:
+            if isinstance(h, (set, frozenset)):
+                hinted = set(h)
+            elif h is not None:
                 return h in true_signs
         key, orient = SignFacts.canon(d)
         ts = set(true_signs) if orient == 1 else {-s for s in true_signs}
         remaining = self.facts.get(key, {-1, 0, 1})
+        if hinted is not None:
+            remaining = remaining & (hinted if orient == 1 else {-s for s in hinted})
         if remaining <= ts:
             return True
         if not (remaining & ts):
@@ -543,7 +549,7 @@ class Interp:
             if c is not None:
                 return c != 0
             return self.decide_sign(v, {-1, 1}, "%s != 0" % v.short(60))
-        if isinstance(v, (list, tuple, dict, str)):
+        if isinstance(v, (list, tuple, dict, str, set, frozenset)):
             return len(v) > 0
         if isinstance(v, Obj):
             if self.pkg.lookup(v.cls, "__bool__") or self.pkg.lookup(v.cls, "__len__"):
@@ -684,7 +690,9 @@ class Interp:
         if isinstance(op, (ast.In, ast.NotIn)):
             if isinstance(r, dict):
                 res = self.hashable(l, node) in r
-            elif isinstance(r, (list, tuple, set, frozenset)):
+            elif isinstance(r, (set, frozenset)):
+                res = self.hashable(l, node) in r
+            elif isinstance(r, (list, tuple)):
                 res = any(self.equal(l, x, node) for x in r)
             else:
                 raise self.unsupported("membership test in %r" % (r,), node)
@@ -767,6 +775,10 @@ class Interp:
         if not ok:
             self.events.append(("noncongruent-wrap", "modulus %s at %s" % (m.short(40), self.where(node))))
         self.wrap_uses += 1
+        if self.mark_wraps == "numbered":
+            name = "WRAP%d" % len(self.wraps)
+            self.wraps.append((name, w.inner + w.offset))
+            return w.inner + w.offset + Poly.var(name)
         if self.mark_wraps:
             return w.inner + w.offset + Poly.var("WRAP")
         return w.inner + w.offset
@@ -1205,6 +1217,13 @@ class Interp:
             return [(Poly.const(i + start), x) for i, x in enumerate(self.iterate(args[0], n))]
         if name == "reversed":
             return list(reversed(self.iterate(args[0], n)))
+        if name in ("set", "frozenset"):
+            seq = self.iterate(args[0], n) if args else []
+            return frozenset(self.hashable(x, n) for x in seq)
+        if name == "dict":
+            if args or kw:
+                raise self.unsupported("dict() with arguments", n)
+            return {}
         if name in ("list", "tuple"):
             seq = self.iterate(args[0], n) if args else []
             return list(seq) if name == "list" else tuple(seq)
@@ -1260,6 +1279,14 @@ class Interp:
             if not any(self.equal(x, y, n) for y in res):
                 res.append(x)
         return frozenset(self.hashable(x, n) for x in res)
+
+    def ev_DictComp(self, n, env):
+        out = {}
+
+        def emit(e):
+            out[self.hashable(self.ev(n.key, e), n)] = self.ev(n.value, e)
+        self.comp(n.generators, 0, dict(env), emit)
+        return out
 
     def comp(self, gens, i, env, emit):
         if i == len(gens):
@@ -1562,7 +1589,7 @@ def _dotp(r, c):
 
 OPNAME = {ast.Lt: "<", ast.LtE: "<=", ast.Gt: ">", ast.GtE: ">=", ast.Eq: "==", ast.NotEq: "!="}
 ARR_METHODS = {"view", "copy", "dot", "transpose", "flatten", "ravel", "tolist", "astype", "reshape", "sum", "round"}
-BUILTIN_NAMES = {"isinstance", "issubclass", "type", "len", "range", "zip", "enumerate", "reversed", "list", "tuple",
+BUILTIN_NAMES = {"set", "frozenset", "dict", "isinstance", "issubclass", "type", "len", "range", "zip", "enumerate", "reversed", "list", "tuple",
                  "all", "any", "sum", "max", "min", "super", "print", "round", "int", "abs", "NotImplementedError"}
 
 
